@@ -138,6 +138,11 @@ inline void lemma_dispatch() {
     vt_check(g_add_calls == 0 && g_neg_calls == 0, "no handler runs for an unbound selector or a request that fails to decode");
     vt_check(w.pos == 0, "nothing is sent back");
     if (whole) vt_check(st.error() == nop::ErrorStatus::InvalidInterfaceMethod, "a selector with no bound handler yields InvalidInterfaceMethod");
+    // a request that carries a bound selector (9 bytes: U64 class) but whose argument tuple is cut short fails to
+    // decode with the reader's error, which is what the dispatcher returns — not "no such method"
+    const bool bound = (selector == Calc::Neg::Selector) || (selector == Calc::Add::Selector && !member_set);
+    if (!whole && bound && req_len >= 9)
+      vt_check(st.error() == nop::ErrorStatus::ReadLimitReached, "a request whose arguments fail to decode yields that decode error");
   }
   vt_cover(whole && selector == Calc::Add::Selector && !member_set, "Add dispatched");
   vt_cover(whole && selector == Calc::Neg::Selector && member_set, "Neg dispatched to the member function");
@@ -157,7 +162,11 @@ inline void lemma_invoke() {
   fmt::enc_int(rep, result);
   std::uint8_t out[fmt::kCap];
   SpecReader r;
-  r.Init(rep.b, rep.n);
+  const std::size_t rcut = nondet<std::uint8_t>();  // the reply may arrive truncated, or the transport may fail
+  r.Init(rep.b, rcut < rep.n ? rcut : rep.n);
+  r.fail_at = nondet<std::uint8_t>();
+  r.fail_code = nondet<std::uint8_t>();
+  vt_assume(r.fail_code >= 1 && r.fail_code <= 18);
   SpecWriter w;
   w.Init(out, sizeof out);
   w.fail_at = nondet<std::uint8_t>();
@@ -170,6 +179,9 @@ inline void lemma_invoke() {
   if (w.failed != 0) {
     vt_check(static_cast<int>(st.error()) == w.failed, "an I/O error while sending is what Invoke returns");
     vt_check(w.after_fail == 0, "nothing is written after the failed call");
+  } else if (r.failed != 0) {
+    vt_check(!static_cast<bool>(st) && static_cast<int>(st.error()) == r.failed, "a reply that is cut short or fails to arrive makes Invoke return that error, never a value");
+    vt_check(r.after_fail == 0, "nothing is read after the failed call");
   } else {
     fmt::Out req;
     fmt::init(req);
@@ -182,7 +194,8 @@ inline void lemma_invoke() {
     vt_check(r.pos == rep.n, "exactly one reply is consumed");
   }
   vt_cover(w.failed != 0 && w.calls > 2, "fault after the selector reached");
-  vt_cover(w.failed == 0, "successful call reached");
+  vt_cover(w.failed == 0 && r.failed == 0, "successful call reached");
+  vt_cover(w.failed == 0 && r.failed == static_cast<int>(nop::ErrorStatus::ReadLimitReached), "truncated reply reached");
 }
 
 // ------------------------------------------------------------------ sender -> dispatcher
